@@ -193,7 +193,12 @@ def run_multi_case(case):
                           'type': 'rejectedIdentifier', 'status': 400, 'id': 'reject-c%d' % i})
         else:
             hp['exit']['h_bad%d' % i] = [3] * 500
-    plan = {'default': {'lifetimes_s': [LONG], 'chain_lens': [2]}, 'faults': rules}
+    if case['mode'] == 'forget':
+        # nothing is wrong with any certificate; the CA forgets the shared account when orders arrive (twice) while the siblings are
+        # busy in their hooks: everybody must still get through
+        rules.append({'kind': 'newOrder', 'action': 'forget_account', 'known_account': True, 'max_fires': case.get('forgets', 2), 'id': 'forget-at-order'})
+        hp['hold_ms'] = case.get('hold_ms', 20)
+    plan = {'default': {'lifetimes_s': [LONG], 'chain_lens': [2], 'delay_ms': [0, 15] if case['mode'] == 'forget' else [0, 0]}, 'faults': rules}
 
     def cfg(d, ca):
         with open(d + '/hookplan.json', 'w') as f:
@@ -202,7 +207,7 @@ def run_multi_case(case):
         for i in failing:
             if case['mode'] != 'ca':
                 certs[i]['hooks'] = ['h_all', 'h_bad%d' % i]
-        return S.std_config(d, ca, certs, extra_hooks=extra)
+        return S.std_config(d, ca, certs, extra_hooks=extra, hook_plan=d + '/hookplan.json')
     healthy = ['c%d' % i for i in range(n) if i not in failing]
 
     def stop(v):
@@ -378,6 +383,8 @@ def gen(tier):
         k = r.randint(1, n - 1)
         multi_cert.append({'n': n, 'failing': sorted(r.sample(range(n), k)), 'mode': r.choice(['ca', 'ca', 'hook']),
                            'workers': r.choice([None, 1, 2, 4])})
+    for j in range(6 if tier == 'quick' else 40):
+        multi_cert.append({'n': r.randint(2, 6), 'failing': [], 'mode': 'forget', 'workers': r.choice([None, 1, 4]), 'forgets': r.randint(1, 3), 'hold_ms': r.choice([5, 20, 60])})
     shipped = [{'mode': 'rejected'}, {'mode': 'unreachable'}]
     # error storms: the same recoverable error answered to every try of one request of the second attempt
     storms = []
@@ -462,7 +469,7 @@ def run(tier):
         chk.notes['pause_after_failure_s'] = {'min': min(gaps), 'max': max(gaps), 'n': len(gaps)}
     chk.exhaustive = (tier == 'thorough')
     chk.rule = ('CA/network single faults (position x action%s), random multi-fault sequences over 3-6 attempts, hook faults '
-                '(5 hook classes x exit codes/signal/unspawnable x invocation index), certificate sets of 2-6 with a failing subset, '
+                '(5 hook classes x exit codes/signal/unspawnable x invocation index), certificate sets of 2-6 with a failing subset or with the shared account forgotten while orders arrive, '
                 'the same recoverable error answered to every try of one request, polling answers carrying Retry-After, a second well-behaved hook after the failing one, unusable / foreign private-key files left on disk with and without kp_reuse, shipped binary with real waits; distinct = cases whose fault was observed to fire' % (', complete for 1 identifier' if tier == 'thorough' else ', stratified sample'))
     chk.assumptions = ['attempt = directory fetch .. post-operation hook', 'CLOCK_MONOTONIC shared by hookrec and mockca',
                        'the verification build pauses 1 s after a failed attempt (shipped value: see DESIGN), all other waits are 0']
